@@ -78,6 +78,10 @@ CHECKS = {
    technique="exhaustive enumeration plus property-based generation of command batches with a shutdown at every queue position (lock-step simulation: the batch enters the daemon's queue in order, loop iterations run only where the case says), judged by what every call returned and what every reply channel held in the end while the handle clones are still alive; and randomized real-thread stress (2-4 client threads issuing generated calls on clones of a real daemon while another thread shuts it down) with a watchdog for blocked calls",
    text="Exploration: all 3554 batches with the shutdown at every position among 0-2 other commands of 12 kinds x every subset of loop iterations; 4e4 generated batches of up to 10 commands of 13 kinds from three clones (shutdown positions 0-8+, further shutdowns, 1-2 interfaces); 1.5e3 real-thread runs, of which ~95 % had the shutdown fall among the calls. Judged: every call returns an error or its reply channel yields or is closed; DaemonShutdown only after the daemon ran; Shutdown reported exactly once; SearchStopped once and last on every open browse / host name search; a goodbye for the announced service; nothing sent after the exit; afterwards every call on every clone fails with DaemonShutdown and status() says Shutdown.",
    note="Trusted: simulation hooks; the real-thread part depends on OS scheduling (replay of its cases is best effort). A cache-only browse may see two SearchStopped events (its own and the shutdown's), as the C13 statement allows."),
+ "C18": dict(engine=E3, design="6/C18",
+   technique="stateful property-based testing of one real daemon in lock-step simulation against a reference model of the interface table and the ordered enable/disable selections (which interface / family pairs are active at every moment): every packet must leave on an active pair and carry only the service's addresses of that link, peers' announcements are delivered per link and every address in every ServiceResolved event must have been learned on an interface that has not vanished and whose family was not disabled since, the instance of a vanished interface must be reported removed, and at the end a query on every active pair must be answered exactly where the model says",
+   text="Exploration: 2.5e4 generated histories on 1-3 interfaces (IPv4 and/or IPv6, different subnets) with 1-9 operations: selections of 7 kinds, interface events (family added / removed, down / up, address moved), register / unregister with explicit addresses in a subset of the subnets or automatic addressing, peers' announcements per interface and family, queries, re-browsing, pauses; ~4.8e5 packets judged for their interface.",
+   note="Trusted: simulation hooks (interface table shim, per-interface egress capture), the model of IfKind matching. Not judged: packets within 1100 ms after a table change; an interface vanishing while disabled; answers for explicit-address services on links that appeared after the registration; Predicate / loopback selections; one peer instance per interface (no multi-homed instances)."),
 }
 
 def check_entry(pid, c):
